@@ -5,6 +5,7 @@
 // {0..m-1} that uses all m levels, m <= n; 545835 patterns for n = 8) covers every
 // permutation and every multiset arrangement of length n up to order isomorphism.
 #include <algorithm>
+#include <cmath>
 #include <functional>
 #include <numeric>
 
@@ -329,6 +330,31 @@ struct BoundChecker
                         {"expect_ub", e2 - d.begin()}});
             else
                 c.cells.hit(cell("bounds>", n, tie, pos));
+        }
+        // strict weak ordering whose equivalence is coarser than operator== (records looked up
+        // by key): the reference semantics are those of the *comparator* (std::binary_search /
+        // equal_range), so an element equivalent to the query but not equal to it is a hit
+        {
+            auto key = [](T const& x) -> long long {
+                double f = std::floor(double(x) / 4.0);
+                return f < -4e18 ? (long long)(-4e18) : f > 4e18 ? (long long)(4e18) : (long long)(f);
+            };
+            auto kl = [&key](T const& x, T const& y) { return key(x) < key(y); };
+            auto e1 = std::lower_bound(v.begin(), v.end(), q, kl);
+            auto e2 = std::upper_bound(v.begin(), v.end(), q, kl);
+            auto k1 = cel::lower_bound(v.begin(), v.end(), q, kl);
+            auto k1l = cel::lower_bound_linear(v.begin(), v.end(), q, kl);
+            auto k2 = cel::upper_bound(v.begin(), v.end(), q, kl);
+            auto k3 = cel::find_sorted(v.begin(), v.end(), q, kl);
+            bool equal_elem = e1 != e2 && *e1 == q;
+            if (k1 != e1 || k1l != e1 || k2 != e2 || k3 != (e1 != e2 ? e1 : v.end()))
+                c.fail("bounds/coarse-equivalence",
+                       "lower/upper_bound/find_sorted with a by-key comparator differ from std::",
+                       {{"case", W()}, {"lb", k1 - v.begin()}, {"lbl", k1l - v.begin()}, {"ub", k2 - v.begin()},
+                        {"find", k3 - v.begin()}, {"expect_lb", e1 - v.begin()}, {"expect_ub", e2 - v.begin()}});
+            else
+                c.cells.hit(cell(e1 == e2 ? "bounds-bykey/miss" : equal_elem ? "bounds-bykey/hit-equal" : "bounds-bykey/hit-equivalent-only",
+                                 n, tie, pos));
         }
         // heterogeneous comparator over Range iterators (as NonuniformGrid::find does)
         {
